@@ -77,3 +77,98 @@ EXPLANATION = "under construction"
 ASSUMPTIONS = []
 TRUSTED = []
 BOUNDED = [{"name": "histories-vs-fresh-parsers", "script": "bounded/b09_history.py"}]
+
+
+# ------------------------------------------------------------------------------------------------ parser frame
+# "a parser's answers do not depend on what it was asked before": every operation leaves the parser object as it found it - no
+# attribute is added, removed, rebound or (for list / dict / set attributes) changed in place.  The units of the other properties
+# are re-verified here with this frame condition added (same real bodies, same callee contracts).
+import dataclasses as _dc  # noqa: E402
+
+
+def _content(v):
+    if isinstance(v, (list, tuple)):
+        return ("seq", [id(x) if isinstance(x, (Rec, list, dict, set)) or z3.is_expr(x) else x for x in v])
+    if isinstance(v, dict):
+        return ("map", {k: id(x) if isinstance(x, (Rec, list, dict, set)) or z3.is_expr(x) else x for k, x in v.items()})
+    if isinstance(v, (set, frozenset)):
+        return ("set", sorted(map(repr, v)))
+    return None
+
+
+def framed(unit, self_key="self", allow=(), why=""):
+    def setup(ctx):
+        st = unit.setup(ctx)
+        rec = st.env.get(self_key)
+        if isinstance(rec, Rec):
+            st.data["__frame"] = (rec, dict(rec.attrs), {k: _content(v) for k, v in rec.attrs.items()})
+        return st
+
+    def check(ctx, st, outcome):
+        if "__frame" not in st.data:
+            ctx.oblige("frame", "the-scenario-has-a-parser-object", False)
+            return
+        rec, snap, contents = st.data["__frame"]
+        now = rec.attrs
+        keys = (set(now) | set(snap)) - set(allow)
+        changed = [k for k in keys if k not in now or k not in snap or not (now[k] is snap[k] or (not isinstance(now[k], Rec) and not z3.is_expr(now[k]) and type(now[k]) is type(snap[k]) and now[k] == snap[k]))]
+        inplace = [k for k in keys if k in now and k in snap and _content(now[k]) != contents.get(k)]
+        ctx.oblige("frame", f"the-parser-object-is-left-as-it-was-found({outcome}):no-attribute-added,removed,rebound-or-changed-in-place" + (f"(except {', '.join(allow)}: {why})" if allow else ""),
+                   not changed and not inplace, note=f"changed: {changed + inplace}")
+
+    def post(ctx, st, result):
+        unit.post(ctx, st, result)
+        check(ctx, st, "normal return")
+
+    def raises(ctx, st, exc):
+        unit.raises(ctx, st, exc)
+        check(ctx, st, "exception")
+
+    return _dc.replace(unit, prop="C09", setup=setup, post=post, raises=raises, label=(unit.label + "+parser-frame").lstrip("+"))
+
+
+from contracts.c04 import UNITS as _C04  # noqa: E402
+from contracts.apply_actions import apply_actions_unit  # noqa: E402
+from contracts.check_value_key import check_value_key_unit  # noqa: E402
+from contracts.core_units import dump_unit, instantiate_unit  # noqa: E402
+
+_FRAMED_TARGETS = ("ArgumentParser._parse_defaults_and_environ", "ArgumentParser.merge_config", "ArgumentParser.parse_object", "ArgumentParser.parse_string", "ArgumentParser._load_env_vars",
+                   "ArgumentParser.get_defaults")
+UNITS += [framed(u) for u in _C04 if u.target.endswith(_FRAMED_TARGETS)]
+# parse_args: `print_config` - a stale request is dropped at entry (stale-request unit); `args` - scratch: assigned unconditionally at entry, before the only
+# reader (the class-help action, during parse_known_args of the same call), so no call reads what an earlier call left there
+UNITS += [framed(u, allow=("print_config", "args"), why="print_config: stale request dropped at entry; args: scratch attribute assigned at entry before its only reader") for u in _C04 if u.target.endswith("ArgumentParser.parse_args")]
+UNITS += [framed(apply_actions_unit("C09")), framed(check_value_key_unit("C09")), framed(dump_unit("C09")), framed(instantiate_unit("C09"))]
+
+
+# the scratch attribute `args`: whatever an earlier call left there, the argv handlers of *this* call (parse_known_args) see this call's argv
+def scratch_setup(ctx):
+    from contracts.c04 import pa_setup
+    st = pa_setup(ctx)
+    rec = st.env["self"]
+    stale = ["--left-by-an-earlier-call"]
+    if ctx.choose(2, "an-earlier-call-left-its-argv-on-the-parser") == 1:
+        rec.attrs["args"] = stale
+    seen = []
+    inner = rec.methods["parse_known_args"]
+
+    def parse_known_args(c, s_, a, k):
+        seen.append(s_.attrs.get("args"))
+        return inner(c, s_, a, k)
+
+    rec.methods["parse_known_args"] = parse_known_args
+    st.data.update(seen=seen, stale=stale, given=st.env["args"])
+    return st
+
+
+def scratch_post(ctx, st, result):
+    d = st.data
+    ctx.oblige("post", "while-argv-is-processed-parser.args-is-this-call's-argv(a copy),never-an-earlier-call's", len(d["seen"]) == 1 and d["seen"][0] == d["given"] and d["seen"][0] is not d["stale"])
+
+
+def scratch_raises(ctx, st, exc):
+    d = st.data
+    ctx.oblige("raises", "while-argv-is-processed-parser.args-is-this-call's-argv(a copy),never-an-earlier-call's", len(d["seen"]) == 1 and d["seen"][0] == d["given"] and d["seen"][0] is not d["stale"])
+
+
+UNITS.append(Unit("C09", "jsonargparse._core:ArgumentParser.parse_args", scratch_setup, scratch_post, scratch_raises, label="scratch-attribute-args", expect_cover=("return", "raise:ArgumentError")))
